@@ -1022,7 +1022,11 @@ func (ex *Exec) step(c *ctx, in ssa.Instruction, work *[]*ctx, outs *[]Outcome) 
 		id := st.alloc(x.Type(), &MapData{}, "map")
 		ex.set(c, x, MapV{id})
 	case *ssa.MakeChan:
-		id := st.alloc(x.Type(), &ChanData{}, "chan")
+		capT := ex.val(c, x.Size).(*Term)
+		if !capT.IsConst() {
+			unsup("channel with symbolic capacity")
+		}
+		id := st.alloc(x.Type(), &ChanData{cap: int(capT.c)}, "chan")
 		ex.set(c, x, ChanV{id})
 	case *ssa.MakeClosure:
 		fv := FuncV{fn: x.Fn.(*ssa.Function)}
